@@ -345,6 +345,11 @@ func ruleBodyKept(r *core.Reporter) {
 			s int
 		}
 		cut := map[edge]bool{}
+		type viaEdge struct {
+			via, b *ssa.BasicBlock
+			s      int
+		}
+		cutVia := map[viaEdge]bool{}
 		shape := ""
 		for _, ii := range ir.Ifs(pb) {
 			val, known, unk := eval(ii.Atom, n)
@@ -352,7 +357,12 @@ func ruleBodyKept(r *core.Reporter) {
 				shape = p.InstrPos(ii.If)
 			}
 			if known {
-				cut[edge{ii.If.Block(), ii.EdgeWhen(!val)}] = true
+				if ii.Via != nil {
+					// a materialised condition (`keep := a || b || c; if keep`): decided per incoming edge
+					cutVia[viaEdge{ii.Via, ii.If.Block(), ii.EdgeWhen(!val)}] = true
+				} else {
+					cut[edge{ii.If.Block(), ii.EdgeWhen(!val)}] = true
+				}
 			}
 		}
 		if shape != "" {
@@ -367,7 +377,10 @@ func ruleBodyKept(r *core.Reporter) {
 			}
 			return false
 		}
-		_, reach := ir.PathExists([]ir.Pt{ir.After(setMIME[0])}, ir.Opts{EdgeOK: func(b *ssa.BasicBlock, s int) bool { return !cut[edge{b, s}] }}, isSetBody)
+		_, reach := ir.PathExists([]ir.Pt{ir.After(setMIME[0])}, ir.Opts{
+			EdgeOK:    func(b *ssa.BasicBlock, s int) bool { return !cut[edge{b, s}] },
+			EdgeOKVia: func(via, b *ssa.BasicBlock, s int) bool { return via == nil || !cutVia[viaEdge{via, b, s}] },
+		}, isSetBody)
 		if reach {
 			r.Held(key, 1, "a document sniffed as %s passes ProcessBody's keep-test (parent: %s)", n.mime, parentName(n))
 		} else {
